@@ -737,10 +737,22 @@ func scanRaceLogs(bdir string) ([]mon.Violation, int) {
 				continue
 			}
 			blocks++
+			// an access belongs to kit if its innermost frame outside the Go runtime /
+			// standard library is a dapr/kit function (a harness callback invoked by
+			// kit has kit frames further down, but the racing access is the harness's)
 			var frames []string
 			for _, sec := range splitRaceSections(blk) {
-				if m := kitRaceFrame.FindStringSubmatch(sec); m != nil {
-					frames = append(frames, strings.TrimPrefix(m[1], "github.com/dapr/kit/"))
+				for _, m := range anyRaceFrame.FindAllStringSubmatch(sec, -1) {
+					fn := m[1]
+					if !strings.Contains(fn, "/") && !strings.HasPrefix(fn, "verif/") || strings.HasPrefix(fn, "internal/") || strings.HasPrefix(fn, "golang.org/x/") {
+						if !strings.HasPrefix(fn, "github.com/") {
+							continue // runtime, sync, maps ... : look further down
+						}
+					}
+					if strings.HasPrefix(fn, "github.com/dapr/kit/") {
+						frames = append(frames, strings.TrimPrefix(fn, "github.com/dapr/kit/"))
+					}
+					break
 				}
 			}
 			if len(frames) == 0 {
@@ -766,6 +778,7 @@ func scanRaceLogs(bdir string) ([]mon.Violation, int) {
 	return out, blocks
 }
 
+var anyRaceFrame = regexp.MustCompile(`(?m)^  (\S[^\n]*)\([^()\n]*\)\s*$`)
 var kitRaceFrame = regexp.MustCompile(`(?m)^\s+(github\.com/dapr/kit/[^\n]*)\([^()\n]*\)\s*$`)
 
 func splitRaceSections(blk string) []string {
